@@ -62,6 +62,9 @@ def run(chk: core.Check):
 
     chk.stages["exit_condition_race_search"] = U.race_search(chk, (9 if quick else 60) * (3 if chk.broken else 1), judge)
 
+    # the stateful phase's consumer under forced schedules vs ModelS_C11 (one producer thread, its script measured on a free run)
+    chk.stages["stateful_forced_schedules"] = stateful_stage(chk, (6 if quick else 60) * (3 if chk.broken else 1))
+
     # free multi-phase runs with a stop request at a random event index
     n_free = (8 if quick else 80) * (10 if chk.broken else 1)
     bad = 0
@@ -98,6 +101,115 @@ def run(chk: core.Check):
 
     for f in chk.findings:
         chk.known(f, witness_fails(f["witness"]))
+
+
+_SCRIPTS: dict = {}
+
+
+def stateful_script(seed: int, max_examples: int) -> list[str]:
+    key = (seed, max_examples)
+    if key not in _SCRIPTS:
+        evs, _ = run_engine(demo_schema(), default_responder, phases=["stateful"], workers=1, max_examples=max_examples, seed=seed)
+        kinds = [event_kind(e) for e in evs]
+        a = kinds.index("SuiteStarted")
+        b = len(kinds) - 1 - kinds[::-1].index("SuiteFinished")
+        _SCRIPTS[key] = kinds[a : b + 1]
+    return _SCRIPTS[key]
+
+
+def stateful_stage(chk, n) -> dict:
+    from harness.core import clist, cnat
+    from harness.sched import run_forced
+
+    rng = chk.rng
+    KIND = {"SuiteStarted": 1, "ScenarioStarted": 2, "ScenarioFinished": 3, "SuiteFinished": 4, "NonFatalError": 5, "Interrupted": 6}
+    cases = []
+    for k in range(n):
+        seed = rng.choice([1, 2, 3])
+        me = rng.choice([1, 2])
+        script = stateful_script(seed, me)
+        length = rng.randint(6, 3 * len(script) + 10)
+        w_c = rng.choice([1, 2, 3])
+        sched = [rng.choices(["C", "S"], [w_c, 2])[0] for _ in range(length)]
+        if rng.random() < 0.5:
+            # let the producer finish while the consumer sits inside its exit test
+            sched = ["S"] * rng.randint(0, 2) + ["C"] * rng.randint(2, 5) + ["S"] * (len(script) + 2) + ["C"] * (2 * len(script) + 8)
+        cases.append({"seed": seed, "max_examples": me, "script": script, "schedule": sched, "arm_islive": rng.random() < 0.5})
+    # model schedule: the real producer dies in the same release that performs its last put; the model needs one more step
+    exprs = []
+    for c in cases:
+        puts = 0
+        msched = []
+        for lab in c["schedule"]:
+            if lab == "C":
+                msched.append("LC")
+            else:
+                msched.append("LS")
+                if puts < len(c["script"]):
+                    puts += 1
+                    if puts == len(c["script"]):
+                        msched.append("LS")
+        c["model_schedule"] = msched
+        script = clist([cnat(KIND.get(x, 9)) for x in c["script"]], "nat")
+        exprs.append(f"(let '(log, s) := srun_log nat true {clist(msched, 'slabel')} (sinit nat {script}) in (log, strace nat s))")
+    model = core.coq_eval(["C11.ModelS_C11"], exprs)
+    bad = 0
+    for c, (log, mtrace) in zip(cases, model):
+        r = run_forced(demo_schema(), default_responder, c["schedule"], workers=1, phase="stateful", max_examples=c["max_examples"], seed=c["seed"],
+                       tids=["C", "S"], arm_islive=c["arm_islive"])
+        canon = {k: c[k] for k in ("seed", "max_examples", "schedule", "arm_islive")}
+        chk.seen({"stateful": canon}, True)
+        if r.get("error"):
+            chk.disagree("stateful forced schedules: threads did not reach their first points", canon, r["error"], None)
+            continue
+        # align: one real arrival per schedule label; the model has an extra step after the producer's last put
+        mi = 0
+        puts = 0
+        mism = None
+        for k, (lab, a) in enumerate(zip(c["schedule"], r["arrivals"])):
+            code = log[mi]
+            mi += 1
+            if lab == "S" and puts < len(c["script"]):
+                puts += 1
+                if puts == len(c["script"]):
+                    code = log[mi]
+                    mi += 1
+            if arrive_code(a, lab) != code and not (c["arm_islive"] and a == "c_islive"):
+                mism = {"step": k, "label": lab, "real_point": a, "model_code": code}
+                break
+            if c["arm_islive"] and a == "c_islive":
+                # extra harness-side stop between the two tests of the exit condition: not a model step
+                mism = "skip"
+                break
+        if mism == "skip":
+            pass
+        elif mism is not None:
+            bad += 1
+            chk.disagree("stateful forced schedules: program points (real engine vs ModelS_C11.srun_log)", canon, mism, log)
+            continue
+        else:
+            real = [KIND.get(event_kind(e), 9) for e in r["prefix"] if event_kind(e) in KIND and getattr(getattr(e, "phase", None), "name", "") != "PROBING"
+                    and not (event_kind(e) in ("ScenarioStarted", "ScenarioFinished", "SuiteStarted", "SuiteFinished") and e.phase.name != "STATEFUL_TESTING")]
+            if real != list(mtrace):
+                bad += 1
+                chk.disagree("stateful forced schedules: events yielded when the schedule ends (real engine vs ModelS_C11.strace)", canon, real, list(mtrace))
+                continue
+        # the complete stream must be well formed and hold the whole script (nothing lost)
+        kinds = [event_kind(e) for e in r["events"]]
+        a = kinds.index("SuiteStarted") if "SuiteStarted" in kinds else None
+        if a is None or kinds[a : len(kinds) - 1 - kinds[::-1].index("SuiteFinished") + 1] != c["script"]:
+            bad += 1
+            chk.fail("stateful phase: the stream does not hold exactly the events the state-machine thread produced", canon)
+        d = U.stream_wf(r["events"], False)
+        if d is not None:
+            chk.fail(f"event stream not well formed (stateful forced schedule): {d}", canon)
+    return {"runs": len(cases), "problems": bad}
+
+
+def arrive_code(a: str, lab: str) -> int:
+    if a == "stutter":
+        return 6 if lab == "S" else 13
+    return {"s_put": 3, "dead": 6, "c_get": 10, "c_alive": 12, "c_empty": 14, "c_done": 13}.get(a, -1)
 
 
 def witness_fails(w) -> bool:
